@@ -118,6 +118,44 @@ func checkC20(c *Ctx) {
 						acc[k] = append(acc[k], access{x, false, f})
 					case *ssa.DebugRef:
 					default:
+						// the address handed to a library function: the accesses are the loads and
+						// stores through that pointer parameter in the callee (taking the address is
+						// no access)
+						if ci, ok := r.(ssa.CallInstruction); ok {
+							if callee := ci.Common().StaticCallee(); callee != nil && m.isLib(callee) && callee.Blocks != nil {
+								resolved := false
+								for ai, a := range ci.Common().Args {
+									if a != ssa.Value(fa) || ai >= len(callee.Params) {
+										continue
+									}
+									p := callee.Params[ai]
+									escapes := false
+									if prefs := p.Referrers(); prefs != nil {
+										for _, pr := range *prefs {
+											switch y := pr.(type) {
+											case *ssa.Store:
+												if y.Addr == ssa.Value(p) {
+													acc[k] = append(acc[k], access{y, true, callee})
+												} else {
+													escapes = true
+												}
+											case *ssa.UnOp:
+												acc[k] = append(acc[k], access{y, false, callee})
+											case *ssa.DebugRef:
+											default:
+												escapes = true
+											}
+										}
+									}
+									if !escapes {
+										resolved = true
+									}
+								}
+								if resolved {
+									continue
+								}
+							}
+						}
 						if ri, ok := r.(ssa.Instruction); ok {
 							// address taken (passed to a call): both
 							acc[k] = append(acc[k], access{ri, true, f})
